@@ -4,7 +4,6 @@ import (
 	"bytes"
 	"encoding/json"
 	"fmt"
-	"math"
 	"strconv"
 
 	"github.com/jrhy/mast"
@@ -172,39 +171,6 @@ func compareIntReal(i int64, r float64) int {
 		return 1
 	}
 	return 0
-}
-
-// numericTwins returns the keys with another representation of exactly the
-// same numeric value (INTEGER 2 <-> REAL 2.0; 0 <-> 0.0 <-> -0.0). They compare
-// equal to k but hash to other tree layers.
-func numericTwins(k *Key) []*Key {
-	var res []*Key
-	switch k.Type {
-	case v1proto.Type_INT:
-		r := float64(k.Int)
-		if compareIntReal(k.Int, r) == 0 {
-			res = append(res, NewKey(r))
-			if k.Int == 0 {
-				res = append(res, NewKey(math.Copysign(0, -1)))
-			}
-		}
-	case v1proto.Type_REAL:
-		if k.Real >= -9223372036854775808.0 && k.Real < 9223372036854775808.0 {
-			i := int64(k.Real)
-			if compareIntReal(i, k.Real) == 0 {
-				res = append(res, NewKey(i))
-			}
-		}
-		if k.Real == 0 {
-			// the zero of the other sign
-			if math.Signbit(k.Real) {
-				res = append(res, NewKey(float64(0)))
-			} else {
-				res = append(res, NewKey(math.Copysign(0, -1)))
-			}
-		}
-	}
-	return res
 }
 
 func orderType(v, v2 *v1proto.SQLiteValue) (*v1proto.SQLiteValue, *v1proto.SQLiteValue, bool) {
